@@ -183,9 +183,28 @@ pub fn run(cfg: &Cfg) {
         let l: LayoutMetadata = LayoutMetadataBuilder::new().add_key(a.public().clone()).add_key(b.public().clone()).build().unwrap();
         let mut j = serde_json::to_value(&l).unwrap();
         let (ida, idb) = (keyid_hex(a.public()), keyid_hex(b.public()));
-        let ka = j["keys"][&ida].clone();
-        let kb = j["keys"][&idb].clone();
+        let mut ka = j["keys"][&ida].clone();
+        let mut kb = j["keys"][&idb].clone();
         let wrong = hex(&r.bytes(32));
+        // the optional `keyid` member inside a key description: as written, absent, another key's id,
+        // an unrelated id - it never decides what the key's id is
+        for (k, other) in [(&mut ka, &idb), (&mut kb, &ida)] {
+            match r.below(5) {
+                0 => {
+                    k.as_object_mut().unwrap().remove("keyid");
+                }
+                1 => k["keyid"] = Value::String(other.clone()),
+                2 => k["keyid"] = Value::String(wrong.clone()),
+                _ => {}
+            }
+        }
+        // a key description read on its own has the id of its material
+        for (k, id) in [(&ka, &ida), (&kb, &idb)] {
+            if let Ok(pk) = serde_json::from_value::<PublicKey>(k.clone()) {
+                sink.oracle(keyid_hex(&pk) == *id, "a key read from JSON reports an id that is not the id of its key material", &format!("key {}", hex(k.to_string().as_bytes())));
+                keyid_case(&mut sink, &pk, "parsed");
+            }
+        }
         let mut table = serde_json::Map::new();
         match r.below(4) {
             0 => {
@@ -209,7 +228,9 @@ pub fn run(cfg: &Cfg) {
         match serde_json::from_str::<LayoutMetadata>(&text) {
             Err(_) => sink.stat("keytable/rejected"),
             Ok(parsed) => {
-                let ok = parsed.keys.iter().all(|(id, k)| id == k.key_id());
+                // the id of a key is the one the pool derived from the same material (private-key load path)
+                let intrinsic = |k: &PublicKey| pool.iter().find(|p| p.public().as_bytes() == k.as_bytes() && p.public().typ() == k.typ() && p.public().scheme() == k.scheme()).map(|p| keyid_hex(p.public()));
+                let ok = parsed.keys.iter().all(|(id, k)| id == k.key_id() && Some(serde_json::to_value(id).unwrap().as_str().unwrap().to_string()) == intrinsic(k));
                 sink.oracle(ok, "a parsed layout's key table maps an id to a key with another intrinsic id", &format!("layout {}", hex(text.as_bytes())));
                 sink.stat(&format!("keytable/kept-{}", parsed.keys.len()));
             }
